@@ -778,6 +778,49 @@ def fam_measure(res, s, v, what, n):
 # ============================================================================================
 #  R-C05-4 xfmBounds
 # ============================================================================================
+def uninline_xfmpoint(t, tu, m):
+    """if t is the body of xfmPoint(m, p) (read from AffineSpace.h) written out for some point whose coordinates are X, Y, Z,
+    return xfmPoint(m, (X, Y, Z)); else t"""
+    if t[0] == 'call' and t[1] == 'xfmPoint':
+        return t
+    cands = [g for g in tu.functions.values() if g['dep'] and tu.fn_file(g) == AFF_H and (tu.node(g['id']) or {}).get('name') == 'xfmPoint'
+             and len(g['params']) == 2]
+    if len(cands) != 1:
+        return t
+    body = single_return(FnView(tu, cands[0]))
+    if body is None:
+        return t
+    tmpl, term = all_conv(body), all_conv(t)
+    holes = {}
+
+    def unify(a, b):
+        if a[0] == 'm' and a[1] == ('p', 1) and a[2] in COMPS[:3]:
+            if a[2] in holes and holes[a[2]] != b:
+                return False
+            holes[a[2]] = b
+            return True
+        if a == ('p', 0):
+            return b == m
+        if a[0] == 'm' and b[0] == 'm':
+            return a[2] == b[2] and unify(a[1], b[1])
+        if not (isinstance(a, tuple) and isinstance(b, tuple)) or len(a) != len(b) or a[0] != b[0]:
+            return False
+        for x, y in zip(a[1:], b[1:]):
+            if isinstance(x, tuple) and isinstance(y, tuple):
+                if x and isinstance(x[0], str):
+                    if not unify(x, y):
+                        return False
+                else:
+                    if len(x) != len(y) or not all(unify(p_, q_) for p_, q_ in zip(x, y)):
+                        return False
+            elif x != y:
+                return False
+        return True
+    if unify(tmpl, term) and set(holes) == set(COMPS[:3]):
+        return ('call', 'xfmPoint', (m, ('ctor', 'vec_t<corner>', (holes['x'], holes['y'], holes['z']))))
+    return t
+
+
 def corner_image(t, m, b):
     """selector triple if t is xfmPoint(m, corner of b) (corner: b.lower / b.upper / vec(b.S.x, b.S.y, b.S.z)), else None"""
     if not (t[0] == 'call' and t[1] == 'xfmPoint' and len(t[2]) == 2 and t[2][0] == m):
@@ -877,7 +920,7 @@ def fam_xfmbounds(res, s, v):
         stmts.insert(0, ('expr', ('mcall', 'extend', D, (first_corner,))))
     for st in stmts:
         if st[0] == 'expr' and st[1][0] == 'mcall' and st[1][1] == 'extend' and st[1][2] == D and len(st[1][3]) == 1:
-            pt = st[1][3][0]
+            pt = uninline_xfmpoint(st[1][3][0], v.tu, m)
             if not (pt[0] == 'call' and pt[1] == 'xfmPoint' and len(pt[2]) == 2 and pt[2][0] == m):
                 res.und(R4, 'xfmBounds: extended point is not xfmPoint(m, corner): %s' % show(pt, names))
                 return
@@ -1032,7 +1075,7 @@ def raybox_sign_ordered(res, s, v, tu):
         return False
     sides = []
     for side in t[2]:
-        x = strip_casts(side, pred=lambda ty: not ty.startswith('vec_t<'))
+        x = widen_reduce(strip_casts(side, pred=lambda ty: not ty.startswith('vec_t<')), v)
         if not (x[0] == 'call' and x[1] in ('reduce_max', 'reduce_min') and len(x[2]) == 1 and x[2][0][0] == 'ctor' and len(x[2][0][2]) == 2):
             return False
         sides.append((x[1], x[2][0][2][0], x[2][0][2][1]))
@@ -1099,6 +1142,60 @@ def raybox_sign_ordered(res, s, v, tu):
     return True
 
 
+def fold_with_helper_kind(tu, g):
+    """'max' | 'min' if g(vec v, scalar s) returns the fold of max (min) over the components of v and s, each exactly once"""
+    gs = signature(tu, g)
+    if gs.kinds != ['vec', 'scalar'] or not isinstance(gs.params[0]['sh']['n'], int):
+        return None
+    t = single_return(FnView(tu, g))
+    if t is None:
+        return None
+    t = all_conv(t)
+    for fn in ('max', 'min'):
+        leaves = flatten(t, fn)
+        want = [M(('p', 0), c) for c in COMPS[:gs.params[0]['sh']['n']]] + [('p', 1)]
+        if len(leaves) == len(want) and sorted(map(repr, leaves)) == sorted(map(repr, want)):
+            return fn
+    return None
+
+
+def widen_reduce(x, v):
+    """`helper(V, s)` where every overload of `helper` in the analysed headers is the max (min) fold over the components of its
+    vector argument and its scalar argument means reduce_max (reduce_min) of the widened vector (V, s)"""
+    tu = v.tu
+    if x[0] == 'call' and x[1] in ('max', 'min') and len(x[2]) == 2:
+        # the same fold written out (e.g. a helper already inlined): max(max(V.x, V.y), max(V.z, s))
+        leaves = flatten(x, x[1])
+        mem = [l for l in leaves if l[0] == 'm' and l[2] in COMPS]
+        rest = [l for l in leaves if not (l[0] == 'm' and l[2] in COMPS)]
+        nsh = vecshape(v.f['params'][0]['ct']) if v.f['params'] else None
+        nfull = nsh['n'] if nsh else None
+        if len(rest) == 1 and mem and len({l[1] for l in mem}) == 1 and sorted(l[2] for l in mem) == sorted(COMPS[:len(mem)]) \
+                and len(mem) >= 2 and (not isinstance(nfull, int) or len(mem) == nfull):
+            return ('call', 'reduce_' + x[1], (('ctor', 'vec_t<widened>', (mem[0][1], rest[0])),))
+        return x
+    if not (x[0] == 'call' and len(x[2]) == 2 and x[1] not in ('reduce_max', 'reduce_min', 'min', 'max')):
+        return x
+    gs = []
+    for nm, q, node in v.callees:
+        if nm == x[1]:
+            g = tu.callee_fn(node)
+            if g is not None:
+                gs.append(g)
+    if not gs and v.f['dep']:
+        gs = [g for g in tu.functions.values() if g['dep'] and not g.get('rec') and len(g['params']) == 2
+              and tu.fn_file(g) in (RANGE_H, BOX_H, 'rkcommon/math/vec.h') and (tu.node(g['id']) or {}).get('name') == x[1]]
+    kinds = {fold_with_helper_kind(tu, g) for g in gs}
+    if not gs or len(kinds) != 1 or None in kinds:
+        return x
+    inl = getattr(v, 'inl', None)
+    if inl is not None:
+        for g in gs:
+            inl.used.add(g['id'])
+            inl.used_names.add(x[1])
+    return ('call', 'reduce_' + kinds.pop(), (('ctor', 'vec_t<widened>', (x[2][0], x[2][1])),))
+
+
 def distributed_slab(sl, bound, org, rdir, names):
     """recognised-wrong form of a slab distance: `bound*rdir - org*rdir` (the reciprocal direction multiplies the absolute
     coordinates and the two products are subtracted) where `(bound - org) * rdir` is required.  Equal as real numbers; but
@@ -1146,10 +1243,29 @@ def fam_raybox(res, s, v, tu=None):
         return bool(hit)
     bad = False
     for side, nm, red, mm, bound in ((t[2][0], 'entry', 'reduce_max', 'min', LO), (t[2][1], 'exit', 'reduce_min', 'max', HI)):
-        x = strip_casts(side, pred=lambda ty: not ty.startswith('vec_t<'))
+        x = widen_reduce(strip_casts(side, pred=lambda ty: not ty.startswith('vec_t<')), v)
         shape = (x[0] == 'call' and len(x[2]) == 1 and x[2][0][0] == 'ctor' and len(x[2][0][2]) == 2
                  and x[2][0][2][0][0] == 'call' and len(x[2][0][2][0][2]) == 2)
         if not shape:
+            # a written-out fold over the per-axis values and the range bound that mixes min and max is recognisably wrong
+            def leaves_of(y, acc, fns):
+                if y[0] == 'call' and y[1] in ('min', 'max') and len(y[2]) == 2 and not (
+                        all(z[0] != 'm' or z[2] not in COMPS for z in y[2]) and y[2][0][0] == 'b'):
+                    if any(z[0] == 'm' and z[2] in COMPS for z in flatten(y, y[1])):
+                        fns.add(y[1])
+                        for z in y[2]:
+                            leaves_of(z, acc, fns)
+                        return
+                acc.append(y)
+            acc, fns = [], set()
+            leaves_of(x, acc, fns)
+            mem = [l for l in acc if l[0] == 'm' and l[2] in COMPS]
+            if fns == {'min', 'max'} and mem and len({l[1] for l in mem}) == 1 and len(acc) == len(mem) + 1:
+                res.bad(R5, 'intersectRayBox: the %s parameter folds the per-axis slab values and the range bound with a mixture of '
+                            'min and max (`%s`); required the %s over all axes and tRange.%s' % (
+                                nm, show(x, names)[:160], 'maximum' if red == 'reduce_max' else 'minimum', bound), 'slab-' + nm)
+                bad = True
+                continue
             res.und(R5, 'intersectRayBox: the %s parameter is not reduce(vec(minmax(t0, t1), bound)): %s' % (nm, show(side, names)))
             bad = True
             continue
@@ -1497,6 +1613,7 @@ def analyse(ctx, tu, label=''):
         try:
             inl = Inliner(tu, f, v, lambda g: tu.fn_file(g) in (RANGE_H, BOX_H, AFF_H) and
                           classify(tu, g, signature(tu, g), tu.fn_file(g))[0] is None)
+            v.inl = inl
             v._body = inl.stmts(list(v.body()))
             fn(res, s, v)
         except Exception:
